@@ -905,6 +905,10 @@ func run(c *rt.Ctx) {
 			ok = false
 		}
 		for _, q := range quals {
+			if a.get("indented-plan:"+d+":"+q) < 1000 {
+				fmt.Fprintf(os.Stderr, "c16: too few plans with PlanOptions.Indent observed for %s/%s\n", d, q)
+				ok = false
+			}
 			if a.get("reuse:later-op:"+d+":"+q) < 100 {
 				fmt.Fprintf(os.Stderr, "c16: planner reuse: too few calls on a used Planner for %s/%s\n", d, q)
 				ok = false
@@ -922,6 +926,6 @@ func run(c *rt.Ctx) {
 	for k, v := range a.matrix.m {
 		full[k] = v
 	}
-	c.Finish("every Plan.Changes[i].Cmd and every reverse statement of mysql/postgres DefaultPlan.PlanChanges, on change sets of the real differs (shared dmodel pool: create-all, drop-all, exhaustive single-edit neighbourhood in both directions, seeded walks; the monitor's own flag-built family with enums, enum arrays, serial/identity, index comments, sibling/self FKs; realm diffs over two schemas; hand-assembled two-schema / Add-Drop-ModifySchema / rename sets, the two-schema sets and realm diffs again over pairs of schema names that differ only in letter case (ASCII, Latin-1, KELVIN SIGN, LONG S), Unicode normal form, a suffix, the last character or a trailing blank; HCL documents; and sequences of Plan / PlanSchema / Checkpoint / CheckpointSchema (+ WritePlan / WriteCheckpoint) on ONE migrate.Planner over the real differ and planner — all ordered pairs of 12 calls, longer fixed orders, seeded sequences — every result judged by the same rules under the qualifier and mode the Planner was constructed with and compared with the same call on an unused Planner), qualifier ∈ {nil, \"\", custom_q} × mode ∈ {unset, in-place, deferred, dump, unsorted dump}, tokenized by the monitor's lexer: \"\" ⇒ schema marker absent from the text, no CREATE/DROP/ALTER SCHEMA|DATABASE / COMMENT ON SCHEMA, references unqualified, multi-schema / AddSchema / DropSchema / ModifySchema(mode unset|deferred) sets rejected; custom ⇒ every table / enum type / top-level index reference written custom_q.name and marker absent; nil ⇒ every such reference written schema.name; a one-schema set planned with nil must not be rejected with \"\"/custom. ModifySchema in place = out_of_domain. distinct = distinct (dialect, qualifier, plan text incl. reverse statements); non-trivial = at least one statement",
+	c.Finish("every Plan.Changes[i].Cmd and every reverse statement of mysql/postgres DefaultPlan.PlanChanges, on change sets of the real differs (shared dmodel pool: create-all, drop-all, exhaustive single-edit neighbourhood in both directions, seeded walks; the monitor's own flag-built family with enums, enum arrays, serial/identity, index comments, sibling/self FKs; realm diffs over two schemas; hand-assembled two-schema / Add-Drop-ModifySchema / rename sets, the two-schema sets and realm diffs again over pairs of schema names that differ only in letter case (ASCII, Latin-1, KELVIN SIGN, LONG S), Unicode normal form, a suffix, the last character or a trailing blank; HCL documents; and sequences of Plan / PlanSchema / Checkpoint / CheckpointSchema (+ WritePlan / WriteCheckpoint) on ONE migrate.Planner over the real differ and planner — all ordered pairs of 12 calls, longer fixed orders, seeded sequences — every result judged by the same rules under the qualifier and mode the Planner was constructed with and compared with the same call on an unused Planner), qualifier ∈ {nil, \"\", custom_q} × mode ∈ {unset, in-place, deferred, dump, unsorted dump} × PlanOptions.Indent ∈ {none, two blanks; tab in the default mode}, tokenized by the monitor's lexer: \"\" ⇒ schema marker absent from the text, no CREATE/DROP/ALTER SCHEMA|DATABASE / COMMENT ON SCHEMA, references unqualified, multi-schema / AddSchema / DropSchema / ModifySchema(mode unset|deferred) sets rejected; custom ⇒ every table / enum type / top-level index reference written custom_q.name and marker absent; nil ⇒ every such reference written schema.name; a one-schema set planned with nil must not be rejected with \"\"/custom. ModifySchema in place = out_of_domain. distinct = distinct (dialect, qualifier, plan text incl. reverse statements); non-trivial = at least one statement",
 		map[string]any{"matrix_dialect_qualifier_mode_kind": full, "scenarios": len(cases), "marker": marker, "qualifier": customQ})
 }
